@@ -183,11 +183,9 @@ def unusualLoop (env : Env) (e : Entry) (msgidUc : List Nat) : List Nat → List
     let uc := toSorted natLt ((env.findUnusual s).filter fun c => !msgidUc.contains c && !found.contains c)
     if uc.isEmpty then unusualLoop env e msgidUc found rest
     else
-      -- arguments left to right: `message_repr(...)`, then the names
-      match tagR env.flag.db e tplColon .unusualCharacterInTranslation [], ucNames env.charName uc with
-      | .crash x, _ => (found, [.crash x])
-      | _, none => (found, [.crash .valueError])
-      | _, some names =>
+      match ucNames env.charName uc with
+      | none => (found, [.crash .valueError])
+      | some names =>
         let r := unusualLoop env e msgidUc (found ++ uc) rest
         (r.1, tagR env.flag.db e tplColon .unusualCharacterInTranslation [.safe names] :: r.2)
 
@@ -195,20 +193,16 @@ def unusualLoop (env : Env) (e : Entry) (msgidUc : List Nat) : List Nat → List
 def checkXmlFormat (env : Env) (ctx : Ctx) (e : Entry) (info : Info) : List Emit :=
   if !ctx.hasEncoding then []
   else
-    -- `prefix = message_repr(message, template='{}:')` is evaluated first
-    match tagR env.flag.db e tplColon .malformedXml [] with
-    | .crash x => [.crash x]
-    | _ =>
-      match env.xml e.msgid with
-      | .other => [.crash .xmlOther]
-      | .syntaxError msg => if ctx.isTemplate then [tagR env.flag.db e tplColon .malformedXml [.safe msg]] else []
-      | .ok =>
-        if info.fuzzy then []
-        else if !e.hasMsgstr then []
-        else match env.xml (e.msgstr.getD []) with
-          | .other => [.crash .xmlOther]
-          | .syntaxError msg => [tagR env.flag.db e tplColon .malformedXml [.safe msg]]
-          | .ok => []
+    match env.xml e.msgid with
+    | .other => [.crash .xmlOther]
+    | .syntaxError msg => if ctx.isTemplate then [tagR env.flag.db e tplColon .malformedXml [.safe msg]] else []
+    | .ok =>
+      if info.fuzzy then []
+      else if !e.hasMsgstr then []
+      else match env.xml (e.msgstr.getD []) with
+        | .other => [.crash .xmlOther]
+        | .syntaxError msg => [tagR env.flag.db e tplColon .malformedXml [.safe msg]]
+        | .ok => []
 
 /-- `_check_message_formats(ctx, message, flags)`: the dispatch (opaque stage) and the XML gate -/
 def checkMessageFormats (env : Env) (ctx : Ctx) (e : Entry) (info : Info) : List Emit :=
